@@ -362,6 +362,8 @@ pub(super) fn derive_schema(input: TokenStream) -> syn::Result<TokenStream> {
                     LitStr::new(&ident.to_string(), ident.span())
                 };
 
+                let is_unit = matches!(v.fields, Fields::Unit);
+
                 /* preprocess `#[serde(rename_all_fields)]` of enum */
                 if let (
                     Fields::Named(FieldsNamed { brace_token:_, named }),
@@ -414,10 +416,12 @@ pub(super) fn derive_schema(input: TokenStream) -> syn::Result<TokenStream> {
                     (Some(t), Some(c), _) => {/* Adjacently tagged */
                         let t = LitStr::new(t, Span::call_site());
                         let c = LitStr::new(c, Span::call_site());
+                        /* a unit variant is written without content: `{"t": "Name"}` */
+                        let content = (!is_unit).then(|| quote! { .property(#c, #schema) });
                         quote! {
                             ::ohkami::openapi::object()
                                 .property(#t, ::ohkami::openapi::string().enumerates([#tag]))
-                                .property(#c, #schema)
+                                #content
                         }
 
                     }
